@@ -14,7 +14,7 @@ def build():
     u = Unit("u8_writer_tail")
     u.rlimit = 50  # every region query is small (measured: <= 1.1M rlimit units each, ~1 s in total, stable over 8 solver seeds)
     u.raw("#![feature(allocator_api)]\n" + HEADER, "header")
-    u.raw("use std::collections::{BTreeMap, HashSet};\nuse std::io::Write;\n", "glue")
+    u.raw("use std::collections::{BTreeMap, HashSet};\nuse std::io::{ErrorKind, Write};\n", "glue")
     raw = u.source("src/cache/raw.rs")
     for cname in ("PRGCACHE_MAGIC_BYTES", "PRGCACHE_MAGIC", "PRGCACHE_MAGIC_FLIPPED"):
         c = raw.item("const", cname)
